@@ -66,3 +66,4 @@ META = dict(
     technique="Lean 4 proof (named intermediates + one ring identity + linarith per step; induction over scan) + "
               "differential correspondence model vs real code + budget oracle on the implementation",
 )
+READY = True
